@@ -283,6 +283,12 @@ func c13Cells(tier string) []Cell {
 
 	for _, p := range c13Pairs {
 		for _, lens := range lenArrangements(maxN) {
+			if p[0] == "SY" && !sort.IntsAreSorted(lens) {
+				// SyncMap sources: the stream order is produced by the Range permutation (all n! of them are
+				// enumerated inside the cell), so one arrangement per set of key lengths is enough
+				continue
+			}
+
 			cells = append(cells, Cell{ID: c13Cell{Src: p[0], Dst: p[1], Lens: lens, Hops: 1}.id()})
 		}
 		// relays through three instances and one large cache
